@@ -1,4 +1,6 @@
 import GoSSE.Proofs.ClientConnect
+import GoSSE.Props.C01
+import GoSSE.Props.C20
 /-!
 # C10 — reconnects carry the last dispatched event ID and a fresh request body
 
@@ -60,10 +62,10 @@ a prefix of: the request's own header for the first attempt, then for attempt `n
 last dispatched ID according to the SPECIFICATION interpretation (`Spec.run`) of all streams of
 attempts `0..n` — absent iff that ID is empty. -/
 theorem header_is_last_dispatched_id_spec (cfg : Cfg) (fl : Floats) (h : List Attempt) (c : Conn) (t0 : Int) (done0 : Bool)
-    (hc : c.isRetry = false) (href : RefinesSpec h) :
+    (hc : c.isRetry = false) (href : RefinesSpec c.buf h) :
     attemptHeaders (connect cfg fl c t0 done0 h).trace <+: expectedHeaders c.req.header c.lastEventID h := by
   have key := connectLoop_induct_h cfg fl
-    (fun h c _ _ tr => RefinesSpec h →
+    (fun h c _ _ tr => RefinesSpec c.buf h →
       attemptHeaders tr <+: expectedHeaders (if c.isRetry then headerOf c.lastEventID else c.req.header) c.lastEventID h)
     (by intro h c ctl done _; simp [attemptHeaders])
     (by
@@ -77,12 +79,12 @@ theorem header_is_last_dispatched_id_spec (cfg : Cfg) (fl : Floats) (h : List At
     (by
       intro a rest c ctl done w q hs hw ih href
       have hk := resetRequest_keeps c
-      have href' : RefinesSpec rest := fun b hb => href b (List.mem_cons_of_mem _ hb)
-      have ih := ih href'
+      have href' : RefinesSpec c.buf rest := fun b hb => href b (List.mem_cons_of_mem _ hb)
       rcases doConnect_spec cfg c ctl a done with ⟨e, _, he⟩ | ⟨hr, ⟨hi, _, hcn, hns⟩ | ⟨src, ic, ho, hi, _, hcn⟩⟩
       · rw [he] at hs; cases hs
       · rw [hcn] at ih
-        simp only [hk.2.2.2, hk.1, if_true] at ih
+        simp only [hk.2.2.2, hk.1, hk.2.1, if_true] at ih
+        have ih := ih href'
         have hid : idAfterSpec c.lastEventID a = c.lastEventID := by
           unfold idAfterSpec
           cases ho : a.out with
@@ -93,18 +95,54 @@ theorem header_is_last_dispatched_id_spec (cfg : Cfg) (fl : Floats) (h : List At
         simp only [attOf, attemptHeaders, expectedHeaders, resetRequest_header c hr, List.cons_append, List.nil_append, hid]
         exact (List.prefix_cons_inj _).mpr ih
       · rw [hcn] at ih
-        simp only [hk.2.2.2, hk.1, if_true] at ih
+        simp only [hk.2.2.2, hk.1, hk.2.1, if_true] at ih
+        have ih := ih href'
         have hid : idAfterSpec c.lastEventID a =
             lastDispatched c.lastEventID (outsOf (resetRequest c).1 src) := by
           unfold idAfterSpec outsOf
           rw [ho]
-          simp only [hk.1]
-          exact (lastDispatched_congr _ _ _ (href a List.mem_cons_self src ic ho _ _)).symm
+          simp only [hk.1, hk.2.1]
+          exact (lastDispatched_congr _ _ _ (href a List.mem_cons_self src ic ho _)).symm
         rw [hi]
         simp only [attOf, attemptHeaders, expectedHeaders, resetRequest_header c hr, List.cons_append, List.nil_append, hid]
         exact (List.prefix_cons_inj _).mpr ih)
   have := key h c (Ctl.new cfg t0) done0 href
   simpa [hc, connect] using this
+
+/-- `RefinesSpec` is what C01 proves: whenever no stream of the history makes the connection's scanner
+report `ErrTooLong`, the reader dispatches exactly the specification's events (`C01.read_conforms_or_toolong`). -/
+theorem refinesSpec_of_noTooLong (buf : Option (Nat × Int)) (h : List Attempt) (hn : NoTooLong buf h) :
+    RefinesSpec buf h := by
+  intro a ha src ic ho id
+  have hc := GoSSE.Props.C01.read_conforms_or_toolong true id src buf
+  simp only at hc
+  rcases hc with ⟨ht, _⟩ | ⟨he, _⟩
+  · exact absurd ht (hn a ha src ic ho id)
+  · unfold srcBytes srcEnd; rw [he]
+
+/-- **Headline, with C01 discharged.** For every history none of whose streams exceeds the connection's
+buffer limit, the Last-Event-ID header of every attempt is the one the WHATWG interpretation of all
+streams received so far prescribes (absent iff that ID is empty): the ID of the most recently *dispatched*
+event that set one — an `id` line of an event cut before dispatch does not count, NUL IDs are ignored, the
+value survives failed attempts. -/
+theorem header_is_last_dispatched_id_whatwg (cfg : Cfg) (fl : Floats) (h : List Attempt) (c : Conn) (t0 : Int) (done0 : Bool)
+    (hc : c.isRetry = false) (hn : NoTooLong c.buf h) :
+    attemptHeaders (connect cfg fl c t0 done0 h).trace <+: expectedHeaders c.req.header c.lastEventID h :=
+  header_is_last_dispatched_id_spec cfg fl h c t0 done0 hc (refinesSpec_of_noTooLong c.buf h hn)
+
+/-- non-vacuity of `NoTooLong`: a short stream under the default limit -/
+example : NoTooLong none [{ out := .stream { chunks := [[105, 100, 58, 32, 49, 10, 10]], endErr := false } false }] := by
+  intro a ha src ic ho id
+  simp only [List.mem_singleton] at ha
+  subst ha
+  simp only [Outcome.stream.injEq] at ho
+  obtain ⟨rfl, _⟩ := ho
+  have hfit := GoSSE.Props.C20.fits_implies_complete true id { chunks := [[105, 100, 58, 32, 49, 10, 10]], endErr := false } none
+    (by
+      show GoSSE.Proofs.FitsLimit 65536 [105, 100, 58, 32, 49, 10, 10]
+      refine GoSSE.Proofs.FitsLimit.piece _ 7 (by decide) (by decide) ?_
+      exact GoSSE.Proofs.FitsLimit.rest _ (by decide) (by decide))
+  exact hfit.1
 
 /-- non-vacuity of `RefinesSpec` on a concrete stream: `id: 1`, blank line, then an event cut before
 dispatch whose `id: 2` does not count — model and specification both end with ID `1` -/
